@@ -497,3 +497,19 @@ def r2d(ctx):
             yield r
     if not n:
         yield MISSING("C13-R2d", "param-syntax/no-instance", "no parameter-syntax instance of C19-R2")
+
+
+@M.rule("C13-R4", "an I/O failure is always the IO kind: From<io::Error> does not look at the error")
+def r4_io(ctx):
+    """The taxonomy maps kinds to codes (R1); the conversions decide the kind. `From<io::Error>` must produce `IO` for every
+    io::Error - a conversion that files UnexpectedEof / InvalidData under a client-error kind reports an infrastructure
+    failure of the key provider as a malformed request (400 instead of 500)."""
+    f = ctx.fn("<error::SignatureError as std::convert::From<std::io::Error>>::from")
+    ctx.count()
+    ags = f.aggregates(adt=r"^error::SignatureError$")
+    kinds = {s_["rv"]["variant"] for _, _, s_ in ags}
+    sw = [bi_ for bi_ in sorted(f.live_blocks()) if f.term(bi_)["k"] == "switch"]
+    if kinds != {"IO"} or sw or f.calls(r"io::(error::)?Error::kind$"):
+        yield VIOL("C13-R4", "from-io-error/kind", "From<io::Error> for SignatureError builds %s%s: an I/O failure is not always reported as IO / InternalFailure" % (sorted(kinds), " under a condition on the error" if sw or f.calls(r"Error::kind$") else ""), where=loc(f.j["span"]))
+    else:
+        yield PASS("C13-R4", "from-io-error/kind", "From<io::Error> = SignatureError::IO(e), unconditionally", [loc(f.j["span"])])
